@@ -134,11 +134,19 @@ PARTS = [("cooc", part_cooc), ("ngram", c06.part_ngram), ("skipgram", c06.part_s
 
 def run(ctx):
     ctx.scale = 0.3 if ctx.quick else 1.0      # the family parts run in full under their own property
+    own = ("cooc", "protocol", "refit")
+    tier = ctx.tier
     for name, fn in PARTS:
         if ctx.only and name not in ctx.only:
             continue
         ctx.log("part", name)
-        fn(ctx)
+        # the re-used family parts keep their quick instance spaces (their thorough spaces run under C06 / C09 / C16 / C20);
+        # the thorough tier of C01 deepens its own parts
+        ctx.tier = tier if name in own else "quick"
+        try:
+            fn(ctx)
+        finally:
+            ctx.tier = tier
     ctx.exhaustive = False
     return ctx.finish(
         level="model_checking",
